@@ -18,6 +18,13 @@ import (
 	"time"
 )
 
+var primarySolver = func() string {
+	if v := os.Getenv("GOSYM_SOLVER"); v != "" {
+		return v
+	}
+	return "z3-new"
+}()
+
 type Result int
 
 const (
@@ -32,6 +39,7 @@ type SolverStats struct {
 	Queries, Sat, Unsat, Unknown, Errors int
 	FallbackQueries, FallbackDecided     int
 	CrossChecked, CrossDisagree          int
+	SentBytes                            int64
 	Seconds                              map[string]float64
 }
 
@@ -39,6 +47,8 @@ type Solver struct {
 	cmd       *exec.Cmd
 	in        io.WriteCloser
 	out       *bufio.Reader
+	lines     chan string
+	modelCostly bool // get-value is slow on this harness: skip optional model fetches
 	level     int
 	defLevel  map[int]int // term id -> level at which it is defined/declared
 	defStack  [][]int
@@ -61,14 +71,28 @@ func newSolver(timeoutMs int, stats *SolverStats) *Solver {
 }
 
 func (s *Solver) start() {
-	cmd := exec.Command("z3", "-in")
+	cmd := exec.Command(primarySolver, "-in")
 	in, _ := cmd.StdinPipe()
 	out, _ := cmd.StdoutPipe()
 	cmd.Stderr = os.Stderr
 	if err := cmd.Start(); err != nil {
-		fatalf("cannot start z3: %v", err)
+		fatalf("cannot start %s: %v", primarySolver, err)
 	}
 	s.cmd, s.in, s.out = cmd, in, bufio.NewReaderSize(out, 1<<16)
+	lines := make(chan string, 64)
+	s.lines = lines
+	rd := s.out
+	go func() {
+		for {
+			line, err := rd.ReadString('\n')
+			if err != nil {
+				lines <- "(error \"solver died: " + err.Error() + "\")"
+				close(lines)
+				return
+			}
+			lines <- strings.TrimSpace(line)
+		}
+	}()
 	s.level = 0
 	s.defLevel = map[int]int{}
 	s.defStack = [][]int{nil}
@@ -97,8 +121,11 @@ func (s *Solver) send(l string) {
 	if s.logw != nil {
 		fmt.Fprintln(s.logw, l)
 	}
+	t0 := time.Now()
 	io.WriteString(s.in, l)
 	io.WriteString(s.in, "\n")
+	s.stats.Seconds["z3-send"] += time.Since(t0).Seconds()
+	s.stats.SentBytes += int64(len(l) + 1)
 }
 
 func (s *Solver) push() {
@@ -171,12 +198,35 @@ func (s *Solver) assert(t *Term) {
 	s.asserts[s.level] = append(s.asserts[s.level], t)
 }
 
+// readLine waits for the next output line; a solver that ignores its own
+// timeout is killed and restarted with the same assertion stack (the query
+// then counts as unknown).
 func (s *Solver) readLine() string {
-	line, err := s.out.ReadString('\n')
-	if err != nil {
-		return "(error \"solver died: " + err.Error() + "\")"
+	limit := time.Duration(s.timeoutMs)*time.Millisecond + 5*time.Second
+	select {
+	case l, ok := <-s.lines:
+		if !ok {
+			return "(error \"solver died\")"
+		}
+		return l
+	case <-time.After(limit):
+		s.restartWithStack()
+		return "timeout"
 	}
-	return strings.TrimSpace(line)
+}
+
+func (s *Solver) restartWithStack() {
+	saved := s.asserts
+	s.close()
+	s.start()
+	for lvl, as := range saved {
+		if lvl > 0 {
+			s.push()
+		}
+		for _, t := range as {
+			s.assert(t)
+		}
+	}
 }
 
 // check asks for satisfiability of the current stack.
@@ -215,7 +265,7 @@ func (s *Solver) check() Result {
 		r = resUnknown
 	}
 	s.stats.Queries++
-	s.stats.Seconds["z3"] += time.Since(t0).Seconds()
+	s.stats.Seconds[primarySolver] += time.Since(t0).Seconds()
 	if d := os.Getenv("GOSYM_SLOWDIR"); d != "" && time.Since(t0) > 2*time.Second {
 		os.WriteFile(fmt.Sprintf("%s/slow-%d-%s.smt2", d, s.stats.Queries, r), []byte(s.script(nil)), 0o644)
 	}
@@ -225,13 +275,13 @@ func (s *Solver) check() Result {
 		if r2 := s.oneShot("cvc5"); r2 != resUnknown {
 			s.stats.FallbackDecided++
 			r = r2
-		} else if r2 := s.oneShot("z3-new"); r2 != resUnknown {
+		} else if r2 := s.oneShot(otherZ3()); r2 != resUnknown {
 			s.stats.FallbackDecided++
 			r = r2
 		}
 	} else if s.crossAll {
 		s.stats.CrossChecked++
-		if r2 := s.oneShot("z3-new"); r2 != resUnknown && r2 != r {
+		if r2 := s.oneShot(otherZ3()); r2 != resUnknown && r2 != r {
 			s.stats.CrossDisagree++
 			fmt.Fprintf(os.Stderr, "SOLVER-DISAGREE: z3 %v vs z3-new %v\n", r, r2)
 			r = resUnknown
@@ -324,6 +374,13 @@ func (s *Solver) declaredVars() []string {
 	return names
 }
 
+func otherZ3() string {
+	if primarySolver == "z3" {
+		return "z3-new"
+	}
+	return "z3"
+}
+
 func (s *Solver) oneShot(which string) Result {
 	t0 := time.Now()
 	defer func() { s.stats.Seconds[which] += time.Since(t0).Seconds() }()
@@ -338,8 +395,8 @@ func (s *Solver) oneShot(which string) Result {
 		if strings.Contains(script, "FloatingPoint") {
 			cmd = exec.Command("cvc5", "--lang=smt2", fmt.Sprintf("--tlimit=%d", secs*1000))
 		}
-	case "z3-new":
-		cmd = exec.Command("z3-new", "-in", fmt.Sprintf("-T:%d", secs))
+	case "z3-new", "z3":
+		cmd = exec.Command(which, "-in", fmt.Sprintf("-T:%d", secs))
 	}
 	cmd.Stdin = strings.NewReader(script)
 	outb, _ := cmd.Output()
@@ -373,6 +430,14 @@ func (s *Solver) model() Model {
 	if len(vars) == 0 {
 		return Model{}
 	}
+	t0 := time.Now()
+	defer func() {
+		d := time.Since(t0)
+		s.stats.Seconds["z3-model"] += d.Seconds()
+		if d > 50*time.Millisecond {
+			s.modelCostly = true
+		}
+	}()
 	s.send("(get-value (" + strings.Join(vars, " ") + "))")
 	var sb strings.Builder
 	depth := 0
